@@ -70,7 +70,7 @@ def evaluate(case):
                   subcases=2)
 
 
-PRES = ["list", "list", "list", "array", "dict-str", "dict-int", "names"]
+PRES = ["list", "list", "list", "array", "dict-str", "dict-int", "names", "names-array"]
 
 
 def arrange(draw, base, extras, order):
